@@ -1,0 +1,76 @@
+//! Drives the real `TreePainter` with a scripted operation sequence.
+
+use crate::{
+    alloc::{AllocOpMap, AllocTally},
+    counter::BytesFormat,
+    stats::{Stats, StatsSet},
+    time::FineDuration,
+    tree_painter::TreePainter,
+};
+
+pub type Set<T> = [T; 4];
+
+#[derive(Clone, Debug, Default)]
+pub struct SynStats {
+    pub sample_count: u32,
+    pub iter_count: u64,
+    pub time: Set<u128>,
+    /// Per `[bytes, chars, cycles, items]`.
+    pub counts: [Option<Set<u64>>; 4],
+    /// `(count, size)`
+    pub max_alloc: (Set<f64>, Set<f64>),
+    /// Per `[grow, shrink, alloc, dealloc]`: `(count, size)`.
+    pub tallies: [(Set<f64>, Set<f64>); 4],
+}
+
+#[derive(Clone, Debug)]
+pub enum PaintOp {
+    StartParent(String, bool),
+    FinishParent,
+    IgnoreLeaf(String, bool),
+    StartLeaf(String, bool),
+    FinishEmptyLeaf,
+    FinishLeaf { is_last: bool, stats: SynStats, binary: bool },
+}
+
+fn set<T: Copy, U>(v: Set<T>, f: impl Fn(T) -> U) -> StatsSet<U> {
+    StatsSet { fastest: f(v[0]), slowest: f(v[1]), median: f(v[2]), mean: f(v[3]) }
+}
+
+/// Runs `ops` on a fresh `TreePainter` (which prints to standard output).
+pub fn paint(max_name_span: usize, column_widths: [usize; 6], ops: &[PaintOp]) {
+    let mut p = TreePainter::new(max_name_span, column_widths);
+    for op in ops {
+        match op {
+            PaintOp::StartParent(name, last) => p.start_parent(name, *last),
+            PaintOp::FinishParent => p.finish_parent(),
+            PaintOp::IgnoreLeaf(name, last) => p.ignore_leaf(name, *last),
+            PaintOp::StartLeaf(name, last) => p.start_leaf(name, *last),
+            PaintOp::FinishEmptyLeaf => p.finish_empty_leaf(),
+            PaintOp::FinishLeaf { is_last, stats, binary } => {
+                let st = Stats {
+                    sample_count: stats.sample_count,
+                    iter_count: stats.iter_count,
+                    time: set(stats.time, |picos| FineDuration { picos }),
+                    max_alloc: AllocTally {
+                        count: set(stats.max_alloc.0, |x| x),
+                        size: set(stats.max_alloc.1, |x| x),
+                    },
+                    alloc_tallies: AllocOpMap {
+                        values: [0, 1, 2, 3].map(|k| AllocTally {
+                            count: set(stats.tallies[k].0, |x| x),
+                            size: set(stats.tallies[k].1, |x| x),
+                        }),
+                    },
+                    counts: [0, 1, 2, 3]
+                        .map(|k| stats.counts[k].map(|c| set(c, |x| x as _))),
+                };
+                p.finish_leaf(
+                    *is_last,
+                    &st,
+                    if *binary { BytesFormat::Binary } else { BytesFormat::Decimal },
+                );
+            }
+        }
+    }
+}
